@@ -135,6 +135,7 @@ pub fn obs(inst: &mut Inst, uni: &Universe, cfg: &ObsCfg) -> String {
         for s in &cfg.slots {
             q(inst, &mut out, "eth_getStorageAt", json!([a, format!("0x{:x}", s)]));
         }
+        q(inst, &mut out, "eth_getStorageAt", json!([a, hx(&crate::asm::WIDE_KEY)]));
     }
     q(inst, &mut out, "txpool_content", json!([]));
     if !cfg.open_block {
